@@ -14,4 +14,5 @@ def check(repo, rep, tier):
     fr = rep.run(rs.rule_store_snapshot, em, rep, 'C13.S1')
     rep.run(rs.rule_fresh_per_use, em, rep, 'C13.S2', fr)
     rep.run(rs.rule_copier_derefs, em, rep, 'C13.S3', fr)
+    rep.run(rs.rule_copier_map_shared, em, rep, 'C13.S5', fr)
     rep.run(rx.rule_facts_immutable, em, rep, 'C13.S4')
